@@ -5,3 +5,4 @@ import ChiModel.LogLik
 import ChiModel.PopModels
 import ChiModel.Hier
 import ChiModel.Reduced
+import ChiModel.ShapeEta
